@@ -5,6 +5,8 @@ import (
 	"os"
 	"testing"
 	"time"
+
+	"verif/rig/mesh"
 )
 
 type tlog struct{ t *testing.T }
@@ -45,6 +47,14 @@ func TestExplore(t *testing.T) {
 			}
 		})
 	}
+	run("pingpong oneway", Setup{Proto: "boltpp", Hosts: []string{"ok"}, Thr: [4]uint32{0, 0, 0, 1}, GlobalMs: 1000}, func(r *rig) {
+		x, _ := mesh.DialX("bolt", r.c.Addr)
+		x.Send(mesh.XOneway("bolt", 1, "ow1", []byte("x")))
+		time.Sleep(50 * time.Millisecond)
+		fmt.Println("after oneway", r.observe())
+		fmt.Println(r.probeOnce("a"), r.observe())
+		x.Close()
+	})
 	if os.Getenv("C10_EXPLORE") == "retry" {
 		return
 	}
